@@ -73,11 +73,11 @@ HARNESSES = [
   dict(name='uset_ins_2t', unit='us_i_i', harness='h_uset.c', defines=dict(USD, TA='i', TB='i', NV=4, ND=1),
        scenarios_quick=[{'KA0': 5, 'KB0': 5}, {'KA0': 5, 'KB0': 13}, {'KA0': 5, 'KB0': 7, 'HMODE': 1}],
        scenarios=[{'KA0': 5, 'KB0': 5}, {'KA0': 5, 'KB0': 13}, {'KA0': 5, 'KB0': 7}, {'KA0': 5, 'KB0': 4}, {'KA0': 3, 'KB0': 3}, {'KA0': 5, 'KB0': 5, 'HMODE': 1}, {'KA0': 5, 'KB0': 7, 'HMODE': 1},
-                  {'KA0': 4, 'KB0': 5, 'HMODE': 3, 'PRE0': 2, 'PRE1': 1}, {'KA0': 5, 'KB0': 7, 'HMODE': 2}],
+                  {'KA0': 4, 'KB0': 5, 'HMODE': 3, 'PRE0': 0, 'PRE1': 2}, {'KA0': 5, 'KB0': 5, 'HMODE': 3, 'PRE0': 0, 'PRE1': 2, 'NPRE': 3, 'PRE2': 4, 'NV': 5}],
        cbmc=US_CBMC(), timeout=900, thorough_override=dict(defines=dict(USD, TA='i', TB='i', NV=4, ND=1, ROUNDS=2), timeout=2400),
        desc='concurrent_unordered_set<int>: insert(ka) || insert(kb) through the real internal_insert/search_after/try_insert (same key: one winner; keys adjacent in '
             'split order at the same predecessor; all keys one hash: equal order keys decided by key_equal). Whole-list oracle at quiescence.',
-       bounds=B(loop_unroll=2, keys='concrete per scenario', hash='identity | constant | 16k | bit63 alias', buckets=2, thorough='free_rounds 2')),
+       bounds=B(loop_unroll=2, keys='concrete per scenario', hash='identity | constant | bit63 alias', buckets=2, thorough='free_rounds 2')),
   dict(name='uset_find_2t', unit='us_i_f', harness='h_uset.c', defines=dict(USD, TA='i', TB='f', NV=3, ND=1),
        scenarios=[{'KA0': 5, 'KB0': 5}, {'KA0': 5, 'KB0': 3}], cbmc=US_CBMC(), timeout=900, thorough_override=dict(defines=dict(USD, TA='i', TB='f', NV=3, ND=1, ROUNDS=2), timeout=2400),
        desc='insert(ka) || find(kb): a find that starts after the insert returned finds the key; a pre-existing key behind the insertion point is never missed',
@@ -98,7 +98,7 @@ HARNESSES = [
        scenarios_thorough=[dict(NB=4, NPRE=2, PRE0=4, PRE1=1, KA0=3, KB0=5, NV=3, ND=2), dict(NB=4, NPRE=2, PRE0=4, PRE1=1, KA0=3, KB0=7, NV=3, ND=3)], cbmc=US_CBMC(), timeout=1200,
        desc='bucket 3 being initialised (dummy node inserted behind the keys of bucket 1) || insert of a key at the same predecessor / into the bucket being initialised',
        bounds=B()),
-  dict(name='uset_grow_2t', unit='us_ii_i1', harness='h_uset.c', tiers=['thorough'], defines=dict(ROUNDS=1, TA='ii', TB='i', NB=1, MLF10=10, NPRE=1, PRE0=2, BCLIM=4, NV=4, ND=2),
+  dict(name='uset_grow_2t', unit='us_ii_i1', harness='h_uset.c', tiers=['thorough'], defines=dict(ROUNDS=1, TA='ii', TB='i', NB=1, MLF10=10, NPRE=1, PRE0=2, BCLIM=4, NV=4, ND=3),
        scenarios=[dict(KA0=4, KA1=6, KB0=8), dict(KA0=4, KA1=1, KB0=3)], cbmc=US_CBMC(), timeout=2400,
        desc='max_load_factor 1.0, one bucket: the inserts double the bucket count (adjust_table_size CAS) while the other thread inserts; keys stay reachable through the grown table',
        bounds=B(note='init_bucket atomic')),
@@ -129,8 +129,8 @@ HARNESSES = [
   dict(name='skip_trav_2t', unit='sk_i_t', harness='h_skip.c', defines=dict(ROUNDS=1, TA='ki', TB='kt', MAXH=3, NPRE=2, PRE0=4, PH0=2, PRE1=8, PH1=1, NN=4),
        scenarios=[dict(KA0=6, HA=2)], cbmc=SK_CBMC, timeout=1200,
        desc='insert(k) || iteration: comparator order, earlier elements seen exactly once', bounds=B(max_level=3)),
-  dict(name='skipm_ins_2t', unit='skm_i_i', harness='h_skip.c', tiers=['thorough'], defines=dict(ROUNDS=1, MULTI=1, TA='ki', TB='ki', MAXH=3, NPRE=1, PRE0=6, PH0=2, NN=4),
-       scenarios=[dict(KA0=6, KB0=6, HA=2, HB=1), dict(KA0=6, KB0=6, HA=2, HB=2)], cbmc=SK_CBMC, timeout=2400,
+  dict(name='skipm_ins_2t', unit='skm_i_i', harness='h_skip.c', tiers=['thorough'], defines=dict(ROUNDS=1, MULTI=1, TA='ki', TB='ki', MAXH=3, NPRE=1, PRE0=6, NN=4),
+       scenarios=[dict(PH0=1, KA0=6, KB0=6, HA=1, HB=1), dict(PH0=2, KA0=6, KB0=6, HA=2, HB=2)], cbmc=SK_CBMC, timeout=2400,
        desc='concurrent_multiset: two inserts of a key that is already present: all three equal keys stay, adjacent, on every level', bounds=B(max_level=3)),
 ]
 MANIFEST = dict(
@@ -158,7 +158,7 @@ OUTSIDE = [
   'weak memory models (TSO and weaker); the acquire/release annotations are not exercised',
 ]
 STUBS = [
-  'user hash functor: pure scenario-defined function of the key (identity, constant, 16*k, bit-63 alias)',
+  'user hash functor: pure scenario-defined function of the key (identity, constant, bit-63 alias)',
   'user allocator (template parameter): fresh, never reused, suitably typed storage from harness pools; freed nodes are poisoned; never fails',
   'tbb::detail::machine_reverse_bits<size_t>: cut in thread units to its contract (exact 64-bit reversal), which sokey_arith PART 1 decides for the real function',
   'segment_table::internal_subscript<true> (my_segments[i]): cut in the list units to its contract (stable distinct slot per index, initially nullptr); the real code is checked in segtab_2t',
